@@ -12,11 +12,39 @@ def plan_C01(ctx):
     canary(ctx)
 
 
+def e1_postings_iter(ctx):
+    """E1: the iterator design refines Level A for every call sequence; each named deviation is caught."""
+    tlc_mc(ctx, "PostingsIter", "MC_PostingsIter_%s.cfg" % ("quick" if ctx.quick else "thorough"))
+    for dev in (("StrictReach",) if ctx.quick else ("StrictReach", "NoSameChunkReset", "SkipIgnoresLocs", "OneHitLeq")):
+        tlc_mc(ctx, "PostingsIter", "MC_PostingsIter_dev_%s.cfg" % dev, workers=4, expect_violation="AllInv")
+
+
+def e2_postings_iter(ctx, num):
+    """E2: behaviours of the model (random configuration, random Next/Advance walk) replayed on real lists."""
+    import lift
+    behs = tlc_emit(ctx, "PostingsIter", "Gen_PostingsIter.cfg", os.path.join(ctx.work, "beh-iter.json"),
+                    extra=["-simulate", "num=%d" % num, "-depth", "30", "-seed", str(ctx.seed)])
+    behs = lift.dedupe(behs)
+    scs = [lift.lift_iter(b, i) for i, b in enumerate(behs)]
+    run_scenarios(ctx, scs, "e2iter", perfile=60)
+
+
+def plan_C05(ctx):
+    e1_postings_iter(ctx)
+    e2_postings_iter(ctx, n_of(ctx, 400, 6000))
+    run_family(ctx, "iter_walk", n_of(ctx, 300, 5000), perfile=50)
+    run_family(ctx, "iter_big", n_of(ctx, 12, 150), perfile=n_of(ctx, 2, 5))
+    require_cov(ctx, "tag:onehit", "tag:multichunk", "tag:excluded", "tag:advance", "tag:replace", "onehit_iter")
+    canary(ctx)
+
+
 PLANS = {
     "C01": plan_C01,
+    "C05": plan_C05,
 }
 
 LEVELS = {
+    "C05": ("model_checking", "E1: every reachable iterator state of the bounded model; E2/E3: scenario = (postings, locations, exclusion, chunk size, flags, call sequence); distinct by content hash; non-trivial = at least one indexed term and two operations"),
     "C01": ("model_checking", "scenario = (batches, operation list); distinct by content hash; non-trivial = at least one indexed term and at least two operations"),
 }
 
